@@ -116,10 +116,8 @@ def shard(args):
     for i in range(n):
         spec = specgen.gen_safe_spec(rng, realsys.unit_info, allow_delete=False, allow_dumps=False)
         if i % 2 == 0:
-            for _ in range(60):
-                if not history.has_shared_job(spec):
-                    break
-                spec = specgen.gen_safe_spec(rng, realsys.unit_info, allow_delete=False, allow_dumps=False)
+            if history.has_shared_job(spec):
+                spec = specgen.unshare_jobs(spec)      # own journey, steps and jobs per usage pattern
         try:
             with watchdog(60):
                 live = Live(spec)
